@@ -862,3 +862,13 @@ Proof.
     rewrite Eb, Ex. reflexivity.
   - assert (max_txs < two32) by (vm_compute; reflexivity). lia.
 Qed.
+
+(* the repeated-tail forgery (CVE-2012-2459 one level up): six transactions hash like eight with the last
+   two repeated; Bitcoin's builder run on the eight-leaf "block" yields a proof with the six-leaf block's
+   root, which the extractor refuses because of the equal siblings at height 2 *)
+Definition ex6 : list (term * bool) := [(T 1, false); (T 2, false); (T 3, false); (T 4, false); (T 5, false); (T 6, true)].
+Definition ex8 : list (term * bool) := ex6 ++ [(T 5, false); (T 6, true)].
+Example repeated_tail_forgery_rejected :
+  merkle_root term Hn (map fst ex8) = merkle_root term Hn (map fst ex6) /\
+  exists bits hashes, build term Hn ex8 = Some (bits, hashes) /\ extract term Hn term_eqb 8 hashes bits = None.
+Proof. split; [vm_compute; reflexivity|]. eexists. eexists. split; vm_compute; reflexivity. Qed.
